@@ -191,7 +191,9 @@ def apply_real(r, d, op):
         dd = dict(d); dd.update(METHODS[op[1]])
         st.method(P.make_method(dd))
     elif k == "solver":
-        ocp.solver("ipopt", SOLVER_OPTS[op[1]])
+        # the user keeps ONE options dict, edits it in place and declares the solver again with it
+        r.user_opts.clear(); r.user_opts.update(SOLVER_OPTS[op[1]])
+        ocp.solver("ipopt", r.user_opts)
     elif k == "set_der":
         # the dynamics declared again, with another right-hand side (one set_der call per state)
         dd = dict(d); dd["rhs"] = op[1]
@@ -230,7 +232,8 @@ def apply_real(r, d, op):
 def declare_spec(d):
     """fresh OCP from a specification (solver from the spec)"""
     r = P.declare(d, solver=False)
-    r.ocp.solver("ipopt", SOLVER_OPTS[d.get("solver", "A")])
+    r.user_opts = dict(SOLVER_OPTS[d.get("solver", "A")])
+    r.ocp.solver("ipopt", r.user_opts)
     # P.declare sets the method after the solver in the fresh object; order is irrelevant for a fresh object
     return r
 
